@@ -180,7 +180,8 @@ func (u *UnitsDefinition) FormatShortFloat(data float64) string {
 	remainder := data
 	output := ""
 	for _, multiplier := range u.getSortedMultipliersCache() {
-		base := int64(math.Floor(remainder / float64(multiplier)))
+		// Divide the whole part exactly: a rounded float quotient can exceed the true one.
+		base := int64(remainder) / multiplier
 		remainder -= float64(base * multiplier)
 		output += u.Multipliers()[multiplier].FormatShortFloat(float64(base), false)
 	}
@@ -212,7 +213,8 @@ func (u *UnitsDefinition) FormatLongFloat(data float64) string {
 	remainder := data
 	output := ""
 	for _, multiplier := range u.getSortedMultipliersCache() {
-		base := int64(math.Floor(remainder / float64(multiplier)))
+		// Divide the whole part exactly: a rounded float quotient can exceed the true one.
+		base := int64(remainder) / multiplier
 		remainder -= float64(base * multiplier)
 		output += u.Multipliers()[multiplier].FormatLongInt(base, false)
 	}
